@@ -82,9 +82,13 @@ VelocityFields(b, o) ==
       gs == [dew |-> Field(b, o + 13, 1), vew |-> Field(b, o + 14, 10),
              dns |-> Field(b, o + 24, 1), vns |-> Field(b, o + 25, 10)]
       as == [hst |-> Field(b, o + 13, 1), hdg |-> Field(b, o + 14, 10), ast |-> Field(b, o + 24, 1)]
+      \* reserved subtypes: the 22 bits after the accuracy field, as the library views them (a 22-bit little-endian
+      \* read: first eight bits least significant) - opaque, no property constrains them (owner "I")
+      x == Field(b, o + 13, 22)
+      rs == [vraw22 |-> (x % 64) * 65536 + ((x \div 64) % 256) * 256 + x \div 16384]
   IN IF st \in {1, 2} THEN common @@ gs
      ELSE IF st \in {3, 4} THEN common @@ as
-     ELSE common
+     ELSE common @@ rs
 
 MEFields(b, o) ==
   LET tc == Field(b, o, 5)
@@ -126,6 +130,12 @@ MEFields(b, o) ==
                      ver |-> Field(b, o + 40, 3), nica |-> Field(b, o + 43, 1), nacp |-> Field(b, o + 44, 4),
                      sil |-> Field(b, o + 50, 2), trkhdg |-> Field(b, o + 52, 1),
                      hrd |-> Field(b, o + 53, 1), silsup |-> Field(b, o + 54, 1)]
+       \* payloads the library does not interpret, exposed as opaque bytes "as the library views them" (owner "I":
+       \* implementation-shaped, not a listed property): the 48 bits after the type code for the variants selected by one
+       \* identifier value, the first six bytes of the field for those selected by an identifier pattern
+       [] k \in {0, 6, 11} -> base @@ [raw |-> [i \in 1..6 |-> Field(b, o + 5 + 8 * (i - 1), 8)]]
+       [] k \in {7, 8} -> base @@ [raw |-> [i \in 1..6 |-> Field(b, o + 8 * (i - 1), 8)]]
+       [] k = 14 -> base @@ [rsv5 |-> Field(b, o, 5), raw |-> [i \in 1..5 |-> Field(b, o + 5 + 8 * (i - 1), 8)]]
        [] OTHER -> base
 
 MELoose(b, o) ==
@@ -148,6 +158,9 @@ MBFields(b, o) ==
                  uelm |-> Field(b, o + 25, 3), delm |-> Field(b, o + 28, 4), idcap |-> Field(b, o + 32, 1),
                  sqcap |-> Field(b, o + 33, 1), sic |-> Field(b, o + 34, 1), gicb |-> Field(b, o + 35, 1),
                  acasbits |-> Field(b, o + 36, 4), dte |-> Field(b, o + 40, 16)]
+  \* the registers the library does not interpret: the bytes after the register number (and the number itself), opaque
+  ELSE IF k = 0 THEN [bdsk |-> k, raw |-> [i \in 1..6 |-> Field(b, o + 8 * i, 8)]]
+  ELSE IF k = 3 THEN [bdsk |-> k, bdsid |-> Field(b, o, 8), raw |-> [i \in 1..6 |-> Field(b, o + 8 * i, 8)]]
   ELSE [bdsk |-> k]
 
 \* the full eight-character identification, or <<>> when the frame carries none
@@ -204,6 +217,7 @@ Owner(f) ==
               "hst", "hdg", "ast", "as"} -> "C07"
     [] f \in {"cs", "cat", "tcl"} -> "C08"
     [] f \in {"id", "es", "st28"} -> "C09"
+    [] f \in {"raw", "rsv5", "vraw22", "bdsid"} -> "I"          \* opaque bytes: no listed property; reported as drift of the model
     [] OTHER -> "C10"
 
 \* coarse signature of an input, used for known findings and coverage counters
